@@ -485,7 +485,8 @@ func stressBreaker(iters int, wg *sync.WaitGroup, start chan struct{}) {
 		wg.Add(1)
 		go func() { defer wg.Done(); <-start; guard("cb/"+name, f) }()
 	}
-	circuitbreaker.LoadRules(mk("x", 5))
+	// per-resource loads only: the whole-map loads of this module are done by stressModule(breakerModule())
+	circuitbreaker.LoadRulesOfResource(r, mk("x", 5))
 	for g := 0; g < 2; g++ {
 		spawn("traffic", func() {
 			for i := 0; i < iters; i++ {
@@ -506,7 +507,7 @@ func stressBreaker(iters int, wg *sync.WaitGroup, start chan struct{}) {
 		for i := 0; i < iters/2; i++ {
 			switch i % 4 {
 			case 0:
-				circuitbreaker.LoadRules(mk("x", 5))
+				circuitbreaker.LoadRulesOfResource(r, mk("x", 5))
 			case 1:
 				circuitbreaker.LoadRulesOfResource(r, mk("y", 50))
 			case 2:
@@ -673,14 +674,18 @@ func stressStat(iters int, wg *sync.WaitGroup, start chan struct{}) {
 func main() {
 	iters := flag.Int("iters", 2000, "iterations per traffic goroutine")
 	mods := flag.String("modules", "flow,isolation,hotspot,circuitbreaker,system,outlier,stat", "modules to stress")
-	mode := flag.String("mode", "stress", "stress | fault (failing loads, fault.go) | shared (concurrent calls on one object, shared.go)")
+	mode := flag.String("mode", "stress", "stress | fault (failing loads, fault.go) | shared (concurrent calls on one object, shared.go) | switch (request parked inside Entry while the rules are switched, switch.go)")
+	sysmode := flag.String("sysmode", "block", "system rules of the stress run: block (lists that each block every inbound request) | admit (lists that each admit every request, and ClearRules)")
 	flag.Parse()
 	res.Iters = *iters
 	env.Init(env.Options{})
-	if *mode == "fault" || *mode == "shared" {
-		if *mode == "fault" {
+	if *mode == "fault" || *mode == "shared" || *mode == "switch" {
+		switch *mode {
+		case "fault":
 			runFaults(*mods)
-		} else {
+		case "switch":
+			runSwitch(*mods)
+		default:
 			runShared(*iters)
 		}
 		finish()
@@ -697,9 +702,14 @@ func main() {
 		case "hotspot":
 			stressModule(hotspotModule(), *iters, &wg, start)
 		case "circuitbreaker":
+			stressModule(breakerModule(), *iters, &wg, start)
 			stressBreaker(*iters, &wg, start)
 		case "system":
-			stressSystem(*iters, &wg, start)
+			if *sysmode == "admit" {
+				stressSystem(*iters, &wg, start)
+			} else {
+				stressSystemBlock(*iters, &wg, start)
+			}
 		case "outlier":
 			stressOutlier(*iters, &wg, start)
 		case "stat":
